@@ -480,3 +480,175 @@ Proof.
 Qed.
 
 End Limit64Proofs.
+
+(* ------------------------------------------------------------------ EVERY int64 Start / Count
+   The fields Start, Count are public: a negative Count yields nothing and a negative Start skips
+   nothing (the code only compares them and forms Start - skips when skips < Start), i.e. they act
+   as 0 = Z.to_nat of them.  So the refinement, and the slice, hold for ALL int64 values, with no
+   premise about where the numbers come from. *)
+Section Limit64All.
+Variable A : Type.
+
+Lemma to_nat_max : forall z : Z, Z.of_nat (Z.to_nat z) = Z.max 0 z.
+Proof. intros z. lia. Qed.
+
+Lemma next64_clamp : forall (s n : Z) (st : lstate) (rows : list A),
+  next64 s n (inj st) rows = next64 (Z.max 0 s) (Z.max 0 n) (inj st) rows.
+Proof.
+  intros s n st rows.
+  assert (Hs : s < 0 -> forall sk rws, next_skip64 s (Z.of_nat sk) rws = next_skip64 0 (Z.of_nat sk) (rws : list A)).
+  { intros H sk rws. destruct rws; cbn [next_skip64];
+    destruct (Z.ltb_spec (Z.of_nat sk) s); destruct (Z.ltb_spec (Z.of_nat sk) 0); try lia; reflexivity. }
+  unfold next64, inj. cbn [mskips mcurrent].
+  destruct (Z.max_spec 0 s) as [[H1 ->]|[H1 ->]]; destruct (Z.max_spec 0 n) as [[H2 ->]|[H2 ->]];
+    try reflexivity.
+  - (* n < 0 *)
+    destruct (next_skip64 s (Z.of_nat (skips st)) rows) as [[e sk] r1]. destruct e; [reflexivity|].
+    destruct (Z.leb_spec n (Z.of_nat (current st))); destruct (Z.leb_spec 0 (Z.of_nat (current st)));
+      try lia; reflexivity.
+  - (* s <= 0 *)
+    destruct (Z.eq_dec s 0) as [->|Hne]; [reflexivity|]. rewrite Hs by lia. reflexivity.
+  - destruct (Z.eq_dec s 0) as [->|Hne].
+    + destruct (next_skip64 0 (Z.of_nat (skips st)) rows) as [[e sk] r1]. destruct e; [reflexivity|].
+      destruct (Z.leb_spec n (Z.of_nat (current st))); destruct (Z.leb_spec 0 (Z.of_nat (current st)));
+        try lia; reflexivity.
+    + rewrite Hs by lia.
+      destruct (next_skip64 0 (Z.of_nat (skips st)) rows) as [[e sk] r1]. destruct e; [reflexivity|].
+      destruct (Z.leb_spec n (Z.of_nat (current st))); destruct (Z.leb_spec 0 (Z.of_nat (current st)));
+        try lia; reflexivity.
+Qed.
+
+Lemma skip_loop64_clamp : forall (s : Z) (sk : nat) (last : list A) (bs : list (list A)),
+  s <= 0 -> skip_loop64 s (Z.of_nat sk) last bs = skip_loop64 0 (Z.of_nat sk) last bs.
+Proof.
+  intros s sk last bs H. destruct bs; cbn [skip_loop64];
+  destruct (Z.ltb_spec (Z.of_nat sk) s); destruct (Z.ltb_spec (Z.of_nat sk) 0); try lia; reflexivity.
+Qed.
+
+Lemma take_left64_clamp : forall (n : Z) (cur : nat) (rows ret : list A) (cnt : Z),
+  n <= 0 -> take_left64 n (Z.of_nat cur) rows ret cnt = (ret, Z.of_nat cur, cnt).
+Proof.
+  intros n cur rows ret cnt H. destruct rows; cbn [take_left64]; [reflexivity|].
+  destruct (Z.leb_spec n (Z.of_nat cur)); [reflexivity|lia].
+Qed.
+
+Lemma batch64_clamp : forall (B s n : Z) (st : lstate) (bs : list (list A)),
+  batch64 B s n (inj st) bs = batch64 B (Z.max 0 s) (Z.max 0 n) (inj st) bs.
+Proof.
+  intros B s n st bs. unfold batch64, inj. cbn [mskips mcurrent].
+  replace (skip_loop64 s (Z.of_nat (skips st)) [] bs)
+    with (skip_loop64 (Z.max 0 s) (Z.of_nat (skips st)) [] bs).
+  2:{ destruct (Z.max_spec 0 s) as [[H1 ->]|[H1 ->]]; [reflexivity|].
+      symmetry. apply skip_loop64_clamp. lia. }
+  destruct (skip_loop64 (Z.max 0 s) (Z.of_nat (skips st)) [] bs) as [[o sk] bs1].
+  destruct o as [rows|]; [|reflexivity].
+  destruct (Z.max_spec 0 n) as [[H2 ->]|[H2 ->]]; [reflexivity|].
+  rewrite !take_left64_clamp by lia.
+  destruct (Z.leb_spec n (Z.of_nat (current st))); destruct (Z.leb_spec 0 (Z.of_nat (current st)));
+    try lia; reflexivity.
+Qed.
+
+Lemma drain_batch64_fuel_ref_all : forall (fuel : nat) (B s n : Z) (st : lstate) (bs : list (list A)),
+  s < 2 ^ 63 -> n < 2 ^ 63 -> Z.of_nat (tot bs) < 2 ^ 63 ->
+  drain_batch64_fuel fuel B s n (inj st) bs =
+  drain_batch_fuel true fuel (Z.to_nat B) (Z.to_nat s) (Z.to_nat n) st bs.
+Proof.
+  induction fuel as [|f IH]; intros B s n st bs Hs Hn Ht; [reflexivity|].
+  cbn [drain_batch64_fuel drain_batch_fuel].
+  rewrite batch64_clamp. rewrite <- !to_nat_max.
+  rewrite batch64_ref by (rewrite ?to_nat_max; lia || assumption).
+  pose proof (batch_tot (Z.to_nat B) (Z.to_nat s) (Z.to_nat n) st bs) as H1.
+  destruct (batch true (Z.to_nat B) (Z.to_nat s) (Z.to_nat n) st bs) as [[out st'] bs'].
+  destruct out as [|x out]; [reflexivity|].
+  rewrite IH by (assumption || lia). reflexivity.
+Qed.
+
+Lemma drain_row64_fuel_ref_all : forall (fuel : nat) (s n : Z) (st : lstate) (rows : list A),
+  s < 2 ^ 63 -> n < 2 ^ 63 ->
+  drain_row64_fuel fuel s n (inj st) rows = drain_row_fuel fuel (Z.to_nat s) (Z.to_nat n) st rows.
+Proof.
+  induction fuel as [|f IH]; intros s n st rows Hs Hn; [reflexivity|].
+  cbn [drain_row64_fuel drain_row_fuel].
+  rewrite next64_clamp. rewrite <- !to_nat_max.
+  rewrite next64_ref by (rewrite to_nat_max; lia).
+  destruct (next (Z.to_nat s) (Z.to_nat n) st rows) as [[o st'] rows']. destruct o as [r|]; [|reflexivity].
+  rewrite IH by assumption. reflexivity.
+Qed.
+
+Theorem limit64_refines_nat_all : forall (B s n : Z) (bs : list (list A)),
+  s < 2 ^ 63 -> n < 2 ^ 63 -> Z.of_nat (tot bs) < 2 ^ 63 ->
+  drain_batch64 B s n bs = drain_batch true (Z.to_nat B) (Z.to_nat s) (Z.to_nat n) bs.
+Proof.
+  intros. unfold drain_batch64, drain_batch. rewrite <- (inj_init).
+  apply drain_batch64_fuel_ref_all; assumption.
+Qed.
+
+Theorem limit64_row_refines_nat_all : forall (s n : Z) (rows : list A),
+  s < 2 ^ 63 -> n < 2 ^ 63 ->
+  drain_row64 s n rows = drain_row (Z.to_nat s) (Z.to_nat n) rows.
+Proof.
+  intros. unfold drain_row64, drain_row. rewrite <- (inj_init).
+  apply drain_row64_fuel_ref_all; assumption.
+Qed.
+
+Theorem limit_machine_batch_slice_all : forall (B s n : Z) (bs : list (list A)),
+  s < 2 ^ 63 -> n < 2 ^ 63 -> Z.of_nat (tot bs) < 2 ^ 63 ->
+  Forall nonempty bs ->
+  exists outs, drain_batch64 B s n bs = Some outs /\
+               concat outs = firstn (Z.to_nat n) (skipn (Z.to_nat s) (concat bs)) /\
+               Forall nonempty outs.
+Proof.
+  intros B s n bs Hs Hn Ht Hne. rewrite limit64_refines_nat_all by assumption.
+  apply drain_batch_slice. assumption.
+Qed.
+
+Theorem limit_machine_row_slice_all : forall (s n : Z) (rows : list A),
+  s < 2 ^ 63 -> n < 2 ^ 63 ->
+  drain_row64 s n rows = Some (firstn (Z.to_nat n) (skipn (Z.to_nat s) rows)).
+Proof.
+  intros s n rows Hs Hn. rewrite limit64_row_refines_nat_all by assumption.
+  apply drain_row_slice.
+Qed.
+
+Theorem agg_machine_batch_slice_all : forall (B s n : Z) (bs : list (list A)),
+  s < 2 ^ 63 -> n < 2 ^ 63 -> Z.of_nat (tot bs) < 2 ^ 63 ->
+  Forall nonempty bs ->
+  exists outs, agg_drain_batch64 B s n bs = Some outs /\
+               concat outs = agg_slice s n (concat bs) /\
+               Forall nonempty outs.
+Proof.
+  intros B s n bs Hs Hn Ht Hne. unfold agg_slice. destruct (Z.ltb_spec n 0).
+  - exists bs. split; [|split; [reflexivity|assumption]].
+    unfold agg_drain_batch64. apply agg_drain_batch64_fuel_all; try assumption. lia.
+  - rewrite agg_drain_batch64_limited by assumption.
+    apply limit_machine_batch_slice_all; assumption.
+Qed.
+
+Theorem agg_machine_row_slice_all : forall (s n : Z) (rows : list A),
+  s < 2 ^ 63 -> n < 2 ^ 63 ->
+  agg_drain_row64 s n rows = Some (agg_slice s n rows).
+Proof.
+  intros s n rows Hs Hn. unfold agg_slice. destruct (Z.ltb_spec n 0).
+  - unfold agg_drain_row64. apply agg_drain_row64_fuel_all; [assumption|lia].
+  - rewrite agg_drain_row64_limited by assumption.
+    apply limit_machine_row_slice_all; assumption.
+Qed.
+
+Theorem delete_limit_machine_all : forall (B s n : Z) (bs : list (list A)),
+  s < 2 ^ 63 -> n < 2 ^ 63 -> Z.of_nat (tot bs) < 2 ^ 63 ->
+  Forall nonempty bs ->
+  exists outs, delete_limit64 B s n bs = Some (outs, Z.of_nat (tot outs)) /\
+               concat outs = firstn (Z.to_nat n) (skipn (Z.to_nat s) (concat bs)) /\
+               Forall nonempty outs.
+Proof.
+  intros B s n bs Hs Hn Ht Hne.
+  destruct (@limit_machine_batch_slice_all B s n bs Hs Hn Ht Hne) as (outs & H1 & H2 & H3).
+  exists outs. split; [|split; assumption].
+  unfold delete_limit64. rewrite H1.
+  pose proof (@delete_count64_exact A outs 0%nat) as H4. cbn [Z.of_nat Nat.add] in H4.
+  rewrite H4; [reflexivity|].
+  assert (tot outs <= tot bs)%nat; [|lia].
+  unfold tot. rewrite H2. rewrite firstn_length, skipn_length. lia.
+Qed.
+
+End Limit64All.
